@@ -315,6 +315,50 @@ theorem C15_resp_create_no_phantom (script : List (Option CreateRes)) (p : CPool
 example : ((⟨0, 0, false, false⟩ : CPool).create .quota).1 = ⟨0, 0, true, false⟩ := by decide
 example : ((⟨0, 0, false, false⟩ : CPool).create .ok).1.unallocated = 1 := by decide
 
+/-! ### pool: the sync loop keeps going -/
+
+/-- **Every iteration of `runSync` re-arms its timer**, whether the listing succeeded or failed (cloud
+error, rate limit, throttle hold-off): as many re-arms as listings, each listing directly followed by
+one, so the loop is never left waiting on a dead timer. -/
+theorem C15_resp_sync_rearmed (rs : List ListRes) :
+    (runSync rs).count .rearm = rs.length ∧
+    (∀ pre post r, runSync rs = pre ++ .list r :: post → ∃ post', post = .rearm :: post') ∧
+    (rs ≠ [] → (runSync rs).getLast? = some .rearm) := by
+  induction rs with
+  | nil =>
+    refine ⟨rfl, ?_, fun h => absurd rfl h⟩
+    intro pre post r h
+    cases pre <;> simp [runSync] at h
+  | cons x rest ih =>
+    obtain ⟨h1, h2, h3⟩ := ih
+    have hc : runSync (x :: rest) = .list x :: .rearm :: runSync rest := by simp [runSync, runSyncIter]
+    refine ⟨?_, ?_, ?_⟩
+    · rw [hc]; simp [List.count_cons, h1]
+    · intro pre post r h
+      rw [hc] at h
+      cases pre with
+      | nil =>
+        simp only [List.nil_append, List.cons.injEq] at h
+        exact ⟨runSync rest, h.2.symm⟩
+      | cons a pre' =>
+        simp only [List.cons_append, List.cons.injEq] at h
+        cases pre' with
+        | nil => simp at h
+        | cons b pre'' =>
+          simp only [List.cons_append, List.cons.injEq] at h
+          exact h2 pre'' post r h.2.2
+    · intro _
+      rw [hc]
+      by_cases hr : rest = []
+      · subst hr; rfl
+      · have := h3 hr
+        rw [List.getLast?_cons_cons, List.getLast?_cons]
+        cases hl : (runSync rest).getLast? with
+        | none => rw [hl] at this; cases this
+        | some y => rw [hl] at this; simpa using this
+
+example : runSync [.err, .ok] = [.list .err, .rearm, .list .ok, .rearm] := by decide
+
 /-! ### runner: Kill gives up -/
 
 /-- **Unkillable process past timeoutTERM ⇒ worker set to drain.** The Kill goroutine ends as soon
